@@ -182,6 +182,7 @@ class JobCtx(FSModel, Ctx):
             raise self.enoent()
         self.fault(interp, "save-open")
         d = canon(spv_of(o))
+        ex.assume(z3.And(jsonok(d), parsed(d) == spv_of(o)))      # instance of the writer/parser round-trip contract
         if self.faults and ex.decide(None, "fault:save-torn"):
             # not atomic (write_concern False and threading support off), or the temp-file write failed: torn content / error
             torn = ex.fresh("torn", Data)
@@ -197,9 +198,6 @@ class JobCtx(FSModel, Ctx):
         self.effect(interp, "write SP", self.fs.with_node(loc, Node.File(d)))
         self.interfere(interp)
         return None
-
-    def interfere(self, interp):
-        pass
 
     # ---- Project._register inline is fine; H5StoreManager etc. opaque
     def instantiate(self, interp, rc, args, kw):
